@@ -991,7 +991,7 @@ where
                     let used_credit =
                         match ports.len().checked_mul(size_of::<u32>()).and_then(|v| u32::try_from(v).ok()) {
                             Some(size) if size <= self.local_cfg.chunk_size => {
-                                receiver_credit_monitor.use_credits(size)?
+                                receiver_credit_monitor.use_credits(size.max(1))?
                             }
                             _ => {
                                 return Err(protocol_err(format!(
